@@ -409,6 +409,77 @@ class Ref:
         m = einsum_labels(self.node_ops(self.net.name[i]), list(ix))
         return m / m.sum()
 
+    def truncations_ok(self, limit=400):
+        """Exact cancellation is an artefact of small signed / complex integers: a message that is
+        computed from partly converged inputs may vanish identically (then every flavour divides 0 by 0
+        when it normalises it).  Enumerate, for every message, its value for EVERY pattern of not yet
+        absorbed upstream parts (boundary: all-ones messages, norm 2: identity), i.e. every value any
+        schedule can produce from the default / all-ones initialisation, and require that none of them
+        vanishes (hyper graphs: has a vanishing entry or sum)."""
+        memo = {}
+
+        def boundary(a, b):
+            labs = self.bonds(a, b)
+            dims = [self.net.dims[x] for x in labs]
+            if self.norm == 1:
+                return np.ones(dims, dtype=complex)
+            d = int(np.prod(dims))
+            return np.eye(d, dtype=complex).reshape(dims + dims)
+
+        def ok(m):
+            nm = np.linalg.norm(m)
+            if not np.isfinite(nm) or nm < 1e-9:
+                return False
+            if self.net.gk == "hyper" and (np.min(np.abs(m)) < 1e-9 * nm or abs(m.sum()) < 1e-9 * nm):
+                return False
+            return True
+
+        def vals(a, b):
+            key = (a, b)
+            if key in memo:
+                return memo[key]
+            deps = [c for c in self.nbr[a] if c != b]
+            labs = self.bonds(a, b)
+            out = [boundary(a, b)]
+            combos = [[]]
+            for c in deps:
+                vc = vals(c, a)
+                if vc is None:
+                    memo[key] = None
+                    return None
+                combos = [cb + [(c, v)] for cb in combos for v in vc]
+                if len(combos) > limit:
+                    memo[key] = None
+                    return None
+            for cb in combos:
+                if self.net.gk == "hyper" and a in self.inodes:
+                    m = np.ones(self.net.dims[a], dtype=complex)
+                    for _, v in cb:
+                        m = m * v
+                else:
+                    ops = []
+                    outer = set(self.net.outer())
+                    for i in self.tensors_of(a):
+                        ix, arr = self.net.tensors[i]
+                        ops.append((list(ix), arr))
+                        if self.norm == 2:
+                            ops.append(([x if x in outer else self._bra(x) for x in ix], np.conj(arr)))
+                    for c, v in cb:
+                        lc = self.bonds(c, a)
+                        ops.append((([self._bra(x) for x in lc] + lc) if self.norm == 2 else lc, v))
+                    m = einsum_labels(ops, ([self._bra(x) for x in labs] + labs) if self.norm == 2 else labs)
+                if not ok(m):
+                    memo[key] = None
+                    return None
+                out.append(m / np.linalg.norm(m))
+            memo[key] = out
+            return out
+
+        for a, b in itertools.chain(self.edges, [e[::-1] for e in self.edges]):
+            if vals(a, b) is None:
+                return False
+        return True
+
     def degenerate(self):
         """a vanishing exact message or value: BP's normalisations are singular there"""
         for m in self.all_messages().values():
